@@ -8,7 +8,11 @@ Kernel structure: the same triple read as (A, B, D) places two parameter batch s
 number of rows and with the number of rows equal to the feature size and to the size of every batch axis (Shapes.tla ShCoClass).
 Model lists: TLC enumerates every sequence of member kinds (homogeneous and heterogeneous).
 Objectives: TLC enumerates every constructible configuration (objective class of gpytorch.mlls x likelihood / noise model x priors x added
-loss term x combine_terms); each is replayed on the triple lattice and element b of every term is compared in value with the replica."""
+loss term x combine_terms); each is replayed on the triple lattice and element b of every term is compared in value with the replica.
+Missing observations: the NaN policy (settings.observation_nan_policy) is a dimension of the replica lattice; TLC enumerates the per-element
+patterns of missing entries of every batch shape (same in every element / different / one element complete; varying along either batch axis)
+and the replay compares element b with the non-batched replica on the b-th slice with the entries deleted that the policy drops from b
+(fill: its own; mask: the documented union over the batch)."""
 import os
 import re
 import zlib
@@ -24,8 +28,10 @@ MAXMEMBERS = 3                               # longest model list
 # rejected variants of the code that the lattice must be able to tell from the code (Batch.tla Variants): the diag heuristic counting
 # the batch axes of what the node OWNS instead of the kernel's batch shape; get_fantasy_model carrying a noise entry over a None entry
 # the normaliser of an objective reading the size of the whole batched tensor (numel) instead of the replica's number of points
-VARIANTS = {"diag_own_batch", "fantasy_noise_carry", "norm_numel"}
+# nan_shared_mask: a 'fill' branch of the NaN policy that takes its mask with the helper of the 'mask' branch (any over the whole batch)
+VARIANTS = {"diag_own_batch", "fantasy_noise_carry", "norm_numel", "nan_shared_mask"}
 NTRAIN, NTEST, NIND, NUM_DATA = 5, 3, 3, 17
+NOBS = NTRAIN                                # Batch.tla NObs: observations of one replica in the missing-observation family
 KTOL = (1e-10, 1e-10)                        # kernels / means / likelihood: rtol, atol
 MTOL = (1e-7, 1e-9)                          # posterior / mll / elbo
 
@@ -58,7 +64,7 @@ def write_cfg(workdir, name, sites, invariants, family="triple", struct=()):
     os.makedirs(workdir, exist_ok=True)
     cfg = os.path.join(workdir, "Batch_%s.cfg" % name)
     tlc.write_cfg(cfg, spec="Spec", constants={"Dims": {1, 2, 3}, "MaxRank": 2, "NPts": NPTS, "MPts": MPTS, "DFeat": DFEAT,
-                                               "Family": family, "WithStruct": bool(struct), "CheckStructs": set(struct), "AllRows": bool(ALLROWS), "MaxMembers": MAXMEMBERS,
+                                               "NObs": NOBS, "Family": family, "WithStruct": bool(struct), "CheckStructs": set(struct), "AllRows": bool(ALLROWS), "MaxMembers": MAXMEMBERS,
                                                "Variants": set(VARIANTS),
                                                "CheckSites": set(sites), "Repaired": set(REPAIRED)}, invariants=invariants)
     return cfg
@@ -86,14 +92,22 @@ def run_tlc(ck):
         f_str = [ex.submit(tlc.run, "Batch", write_cfg(wd, "struct%d" % i, [], STRUCT_INVARIANTS, struct=part), name=PID + "/struct%d" % i, dump=True,
                            check=False, workers=1, timeout=900, extra=["-continue"], **NOCOV) for i, part in enumerate(STRUCT_SPLIT)]
         f_alg = ex.submit(tlc.run, "Batch", write_cfg(wd, "algebra", [], ["Algebra", "CoincidencesCovered"]), name=PID + "/algebra", check=False, workers=2, timeout=900, **NOCOV)
-        gen = tlc.run("Batch", write_cfg(wd, "gen", [], ["RepsComplete", "ListIndependent", "ObjectivesWellFormed", "NormVariantNeedsBatch"], family="both"), name=PID + "/gen", dump=True, check=False,
+        gen = tlc.run("Batch", write_cfg(wd, "gen", [], ["RepsComplete", "ListIndependent", "ObjectivesWellFormed", "NormVariantNeedsBatch", "MissingObservations"], family="both"), name=PID + "/gen", dump=True, check=False,
                       workers=2, timeout=900, **NOCOV)
-        ck.add_tlc(gen, "Batch gen (every triple, every b, replica indices, site predictions, row counts with their coincidence classes; every sequence of member kinds of a model list; every configuration of an objective)")
+        ck.add_tlc(gen, "Batch gen (every triple, every b, replica indices, site predictions, row counts with their coincidence classes; every sequence of member kinds of a model list; every configuration of an objective; every pattern of missing observations of every batch shape with the entries each NaN policy drops from every element)")
         if gen.violation is not None or gen.rc != 0:
             raise tlc.TLCError("Batch.tla generation run failed (%s):\n%s" % ((gen.violation or {}).get("name"), gen.stdout[-1500:]))
-        cases, rejected, configs, objectives = [], [], [], []
+        cases, rejected, configs, objectives, nans = [], [], [], [], []
         for st in gen.states():
             c = st["c"]
+            if "miss" in c:          # missing observations: a pattern over the elements of a batch shape and what every policy drops from every element
+                fill_sites = [k for k in c["code"] if str(k).startswith("fill/")]
+                nans.append(dict(Y=_t(c["nanY"]), place=str(c["place"]), P=_t(c["P"]), D1=_t(c["D1"]), miss=[sorted(int(i) for i in m) for m in c["miss"]],
+                                 cls=str(c["class"]), vary=sorted(int(k) for k in c["vary"]),
+                                 drop={str(pol): [sorted(int(i) for i in m) for m in d] for pol, d in c["drop"].items()},
+                                 sites=sorted(str(k) for k in c["code"]),
+                                 variant_differs=any(tuple(c["vcode"][k]) != tuple(c["drop"]["fill"]) for k in fill_sites)))
+                continue
             if "obj" in c:           # objectives: a configuration with its terms and the sites that transcribe its arithmetic
                 o = c["obj"]
                 objectives.append(dict(cls=str(o["cls"]), lik=str(o["lik"]), prior=bool(o["prior"]), added=str(o["added"]), combine=bool(o["combine"]),
@@ -127,6 +141,12 @@ def run_tlc(ck):
         configs.sort(key=lambda c: (len(c["kinds"]), c["kinds"]))
         if not any(c["variant_leaks"] for c in configs) or not any(c["hetero"] for c in configs):
             ck.vacuous("Batch.tla model lists: no configuration of member kinds tells the variant fantasy_noise_carry from the code (%d configurations)" % len(configs))
+        # ---- missing observations
+        nans.sort(key=lambda c: (c["Y"], c["place"], c["miss"]))
+        if not nans or sorted(set(c["cls"] for c in nans)) != sorted(NAN_CLASSES) or not any(c["variant_differs"] for c in nans) \
+                or sorted(set(pol for c in nans for pol in c["drop"])) != sorted(NAN_POLICIES):
+            ck.vacuous("Batch.tla missing observations: %d patterns, classes %s; no pattern tells the variant nan_shared_mask from the code" % (
+                len(nans), sorted(set(c["cls"] for c in nans))))
         # ---- objectives
         objectives.sort(key=obj_name)
         if sorted(set(o["cls"] for o in objectives)) != sorted(OBJ_CLASSES):
@@ -173,7 +193,8 @@ def run_tlc(ck):
             ck.vacuous("Batch.tla kernel structure: no (structure, A, B, D, rows) cell tells the variant diag_own_batch from the code")
         ck.section("tlc", structure_triples_where_variant_diag_own_batch_differs=nvb, structure_triples_predicted_failing=nsb,
                    list_configurations=len(configs), list_configurations_where_variant_fantasy_noise_carry_leaks=sum(c["variant_leaks"] for c in configs),
-                   objective_configurations=len(objectives),
+                   objective_configurations=len(objectives), missing_observation_patterns=len(nans),
+                   missing_observation_patterns_where_variant_nan_shared_mask_differs=sum(c["variant_differs"] for c in nans),
                    triples_where_variant_norm_numel_differs=sum(1 for c in cases if any(v != "ok" for v in c["vnorm"].values())))
         alg = f_alg.result()
         ck.add_tlc(alg, "Batch algebra invariants")
@@ -198,7 +219,7 @@ def run_tlc(ck):
             ck.model_drift("Batch.tla: site %s (model of the current code) violates SitesAligned on %d of %d triples (predicted %s), e.g. P=%s D1=%s D2=%s "
                            "- a prediction the replay has to confirm" % (s, len(failing[s]), len(cases), "/".join(kinds),
                                                                          failing[s][0]["P"], failing[s][0]["D1"], failing[s][0]["D2"]))
-    return cases, rejected, preds, configs, objectives
+    return cases, rejected, preds, configs, objectives, nans
 
 
 def obj_name(o):
@@ -1106,6 +1127,239 @@ def objective_worker(item):
 
 
 # =============================================================================================
+# missing observations (Batch.tla Family = "nan"): the NaN policy as a dimension of the replica lattice.  Targets of batch shape Y whose
+# element q misses the positions miss[q]; under the policy the replica of q is the NON-batched object on the q-th slice with the positions
+# drop[policy][q] deleted (fill: its own missing entries; mask: the union over the batch), evaluated WITHOUT a NaN policy.
+# =============================================================================================
+NAN_POLICIES = ("mask", "fill")              # Batch.tla NanPolicies ("ignore" = every other family: no missing entries)
+NAN_CLASSES = ("none", "same", "one_clean", "different")     # Batch.tla NanClasses
+NAN_EXACT = "Constant+Scale(Matern2.5_ARD)"
+NAN_MODULES = ("exact", "likelihood", "svgp")
+
+
+def _nan_elements(Y):
+    """the elements of Y in row-major order (Batch.tla BUnravel)"""
+    import itertools
+    return list(itertools.product(*[range(v) for v in Y]))
+
+
+def _nan_targets(torch, nc, g):
+    y = torch.randn(*nc["Y"], NOBS, generator=g, dtype=torch.float64)
+    for idx, m in zip(_nan_elements(nc["Y"]), nc["miss"]):
+        for i in m:
+            y[idx + (i - 1,)] = float("nan")
+    return y
+
+
+def _nan_keep(nc, pol, q):
+    drop = set(nc["drop"][pol][q])
+    return [i for i in range(NOBS) if i + 1 not in drop]
+
+
+def _nan_result(module, mode, nc, pol, seed, outcome, detail, n):
+    """cell = (module, mode, policy, batch shape, placement, pattern).  Signature: C08/nan/<module>/<mode>/<policy>/<pattern class>/<placement>/<outcome>"""
+    numel = 1
+    for v in nc["Y"]:
+        numel *= v
+    r = dict(key=["nan", module, mode, pol, nc["place"], nc["Y"], nc["miss"]], ok=outcome is None, nontrivial=numel >= 2 and nc["cls"] != "none", n=max(1, n),
+             nan=dict(pol=pol, cls=nc["cls"], variant_differs=bool(nc["variant_differs"]) and pol == "fill", rank=len(nc["Y"]), vary=nc["vary"], place=nc["place"]))
+    if outcome is not None:
+        r["sig"] = "C08/nan/%s/%s/%s/%s/%s/%s" % (module, mode, pol, nc["cls"], nc["place"], outcome)
+        r["detail"] = "%s [%s] observation_nan_policy(%r), targets of batch shape %s (batch on: %s), missing positions per element %s: %s" % (
+            module, mode, pol, tuple(nc["Y"]), nc["place"], nc["miss"], detail)
+        r["case"] = dict(kind="nan", name=module, mode=mode, seed=seed, pol=pol, case=nc)
+    return r
+
+
+def _nan_replica_fine(rep, *a):
+    ok, r = core.guarded(rep, *a)
+    if not ok:
+        raise core.Machinery("missing observations: the non-batched replica fails too: %s" % r)
+
+
+def _nan_compare(torch, nc, pol, got, want_of, tol, what):
+    """got: batched tensor of batch shape Y; want_of(q, idx) -> what element idx must be"""
+    Y = tuple(nc["Y"])
+    if tuple(got.shape[:len(Y)]) != Y:
+        return "shape", "%s has shape %s: not the batch shape %s of the targets" % (what, tuple(got.shape), Y)
+    for q, idx in enumerate(_nan_elements(Y)):
+        ok, want = core.guarded(want_of, q, idx)
+        if not ok:
+            raise core.Machinery("missing observations: the non-batched replica failed (%s, element %s of %s): %s" % (what, idx, nc["miss"], want))
+        if tuple(got[idx].shape) != tuple(want.shape):
+            return "shape", "%s[%s] has shape %s, the replica gives %s" % (what, ",".join(map(str, idx)), tuple(got[idx].shape), tuple(want.shape))
+        good, why = core.close(got[idx], want, *tol)
+        if not good:
+            return "values", "%s[%s] differs from the non-batched replica on slice %s with its observations %s deleted: %s" % (
+                what, ",".join(map(str, idx)), list(idx), nc["drop"][pol][q], why)
+    return None, ""
+
+
+def _nan_exact(torch, gpytorch, nc, pol, seed):
+    """exact GP: posterior mean (mask, fill) and ExactMarginalLogLikelihood (mask; it rejects fill)"""
+    P, D1, Y = nc["P"], nc["D1"], nc["Y"]
+    g = _gen(torch, seed, "nan exact", P, D1, nc["miss"])
+    tx = torch.rand(*D1, NOBS, DFEAT, generator=g, dtype=torch.float64)
+    x2 = torch.rand(*D1, NTEST, DFEAT, generator=g, dtype=torch.float64)
+    ty = _nan_targets(torch, nc, g)
+    mb = _randomize(torch, _exact_model(torch, NAN_EXACT, tuple(P), tx, ty), _gen(torch, seed, "nan exact params", P))
+
+    def batched():
+        with gpytorch.settings.observation_nan_policy(pol):
+            mb.eval()
+            mean = mb(x2).mean
+            mll = None
+            if pol == "mask":
+                mb.train()
+                mll = gpytorch.mlls.ExactMarginalLogLikelihood(mb.likelihood, mb)(mb(tx), ty)
+        return mean, mll
+    memo = {}
+
+    def rep(q, idx, which):
+        if q not in memo:
+            keep = _nan_keep(nc, pol, q)
+            p, d1 = (idx if P else ()), (idx if D1 else ())
+            xk, yk = tx[d1][keep], ty[idx][keep]
+            if not torch.isfinite(yk).all():
+                raise core.Machinery("the deleted targets still hold NaN")
+            mr = _copy_state(mb, _exact_model(torch, NAN_EXACT, (), xk, yk).double(), {tuple(P): tuple(p), (): ()})
+            mr.eval()
+            mean = mr(x2[d1]).mean
+            mr.train()
+            # ExactMarginalLogLikelihood divides by the number of points of the prior it is handed, missing or not (the normaliser under a NaN
+            # policy is C16's business): the replica's sum over its observations, divided by the same number
+            mll = gpytorch.mlls.ExactMarginalLogLikelihood(mr.likelihood, mr)(mr(xk), yk) * (len(keep) / NOBS)
+            memo[q] = (mean, mll)
+        return memo[q][which]
+    ok, res = core.guarded(batched)
+    out = []
+    for which, mode in enumerate(["posterior-mean", "mll"]):
+        if mode == "mll" and pol != "mask":
+            continue
+        if not ok:
+            _nan_replica_fine(rep, 0, _nan_elements(Y)[0], which)
+            out.append(_nan_result("exact", mode, nc, pol, seed, "raises", "the batched model raises %s; every replica evaluates" % res, len(nc["miss"])))
+            continue
+        outcome, detail = _nan_compare(torch, nc, pol, res[which], lambda q, idx: rep(q, idx, which), MTOL, mode)
+        out.append(_nan_result("exact", mode, nc, pol, seed, outcome, detail, len(nc["miss"])))
+    return out
+
+
+def _nan_likelihood(torch, gpytorch, nc, pol, seed):
+    """GaussianLikelihood / FixedNoiseGaussianLikelihood: expected_log_prob and log_marginal, point by point.  fill: the dropped positions
+    contribute 0 and stay in place; mask: they are removed from the result"""
+    from gpytorch.distributions import MultivariateNormal
+    from gpytorch import likelihoods as L
+    P, D1, Y = nc["P"], nc["D1"], nc["Y"]
+    out = []
+    for name in ("GaussianLikelihood", "FixedNoiseGaussianLikelihood"):
+        g = _gen(torch, seed, "nan likelihood", name, P, D1, nc["miss"])
+        fixed = 0.05 + 0.2 * torch.rand(*P, NOBS, generator=g, dtype=torch.float64)
+
+        def make(B, fx):
+            return L.GaussianLikelihood(batch_shape=torch.Size(B)) if name == "GaussianLikelihood" else \
+                L.FixedNoiseGaussianLikelihood(fx, learn_additional_noise=True, batch_shape=torch.Size(B))
+        lb = _randomize(torch, make(tuple(P), fixed), g)
+        m = torch.randn(*D1, NOBS, generator=g, dtype=torch.float64)
+        C = _spd(torch, D1, NOBS, g)
+        obs = _nan_targets(torch, nc, g)
+        for mode in ("expected_log_prob", "log_marginal"):
+            def batched():
+                with gpytorch.settings.observation_nan_policy(pol):
+                    return getattr(lb, mode)(obs, MultivariateNormal(m, C))
+
+            def rep(q, idx):
+                keep = _nan_keep(nc, pol, q)
+                p, d1 = (idx if P else ()), (idx if D1 else ())
+                lr = _copy_state(lb, make((), fixed[p][keep]).double(), {tuple(P): tuple(p), (): ()})
+                r = getattr(lr, mode)(obs[idx][keep], MultivariateNormal(m[d1][keep], C[d1][keep][:, keep]))
+                if pol == "mask":
+                    return r
+                full = torch.zeros(NOBS, dtype=torch.float64)
+                full[keep] = r
+                return full
+            ok, res = core.guarded(batched)
+            if not ok:
+                _nan_replica_fine(rep, 0, _nan_elements(Y)[0])
+                out.append(_nan_result(name, mode, nc, pol, seed, "raises", "the batched likelihood raises %s; every replica evaluates" % res, len(nc["miss"])))
+                continue
+            outcome, detail = _nan_compare(torch, nc, pol, res, rep, KTOL, mode)
+            out.append(_nan_result(name, mode, nc, pol, seed, outcome, detail, len(nc["miss"])))
+    return out
+
+
+def _nan_svgp(torch, gpytorch, nc, pol, seed):
+    """SVGP: VariationalELBO (expected_log_prob) and PredictiveLogLikelihood (log_marginal), data term and KL term (combine_terms=False)"""
+    P, D1, Y = nc["P"], nc["D1"], nc["Y"]
+    D2 = Y if nc["place"] == "both" else []          # batch shape of the inducing points
+    variant = "Cholesky-whitened"
+    g = _gen(torch, seed, "nan svgp", P, D1, nc["miss"])
+    Z = torch.rand(*D2, NIND, DFEAT, generator=g, dtype=torch.float64)
+    x = torch.rand(*D1, NOBS, DFEAT, generator=g, dtype=torch.float64)
+    y = _nan_targets(torch, nc, g)
+
+    def make_lik(B):
+        return gpytorch.likelihoods.GaussianLikelihood(batch_shape=torch.Size(B))
+    mb = _svgp_randomize(torch, _svgp_model(torch, variant, tuple(P), Z), g, Z)
+    lb = _randomize(torch, make_lik(tuple(P)), g)
+    classes = (("elbo", gpytorch.mlls.VariationalELBO), ("pll", gpytorch.mlls.PredictiveLogLikelihood))
+
+    def value(m, l, xx, yy, scale):
+        m.train(), l.train()
+        vals = []
+        for _, cls in classes:
+            ll, kl, _ = cls(l, m, num_data=NUM_DATA, combine_terms=False)(m(xx), yy)
+            vals.append(ll * scale - kl)
+        return vals
+
+    def batched():
+        with gpytorch.settings.observation_nan_policy(pol):
+            return value(mb, lb, x, y, 1.0)
+    memo = {}
+
+    def rep(q, idx, which):
+        if q not in memo:
+            keep = _nan_keep(nc, pol, q)
+            p, d1, d2 = (idx if P else ()), (idx if D1 else ()), (idx if D2 else ())
+            Zr = Z[d2]
+            mr = _svgp_model(torch, variant, (), Zr).double()
+            idxmap = {tuple(P): tuple(p), (): ()}
+            idxmap.setdefault(tuple(D2), tuple(d2))
+            _copy_state(mb, mr, idxmap)
+            mr.variational_strategy.inducing_points.data = Zr.clone()
+            lr = _copy_state(lb, make_lik(()).double(), idxmap)
+            # the objectives divide the sum over the data by the number of points of q(f), missing or not: the replica's sum over its observations,
+            # divided by the same number
+            memo[q] = value(mr, lr, x[d1][keep], y[idx][keep], len(keep) / NOBS)
+        return memo[q][which]
+    ok, res = core.guarded(batched)
+    out = []
+    for which, (mode, _) in enumerate(classes):
+        if not ok:
+            _nan_replica_fine(rep, 0, _nan_elements(Y)[0], which)
+            out.append(_nan_result("svgp", mode, nc, pol, seed, "raises", "the batched objective raises %s; every replica evaluates" % res, len(nc["miss"])))
+            continue
+        okb, t = core.guarded(torch.broadcast_to, res[which], tuple(Y))
+        if not okb:
+            out.append(_nan_result("svgp", mode, nc, pol, seed, "shape", "the objective has shape %s, the batch is %s" % (tuple(res[which].shape), tuple(Y)), len(nc["miss"])))
+            continue
+        outcome, detail = _nan_compare(torch, nc, pol, t, lambda q, idx: rep(q, idx, which), MTOL, mode)
+        out.append(_nan_result("svgp", mode, nc, pol, seed, outcome, detail, len(nc["miss"])))
+    return out
+
+
+def nan_worker(item):
+    torch = core.setup_torch()
+    import gpytorch
+    fns = dict(exact=_nan_exact, likelihood=_nan_likelihood, svgp=_nan_svgp)
+    out = []
+    for nc, pol in item["cases"]:
+        for mod in item.get("modules", NAN_MODULES):
+            out += fns[mod](torch, gpytorch, nc, pol, item["seed"])
+    return out
+
+
+# =============================================================================================
 # IndependentModelList / SumMarginalLogLikelihood: members with batch shapes P, D1, D2 (they need not have anything in common)
 # =============================================================================================
 NFANT = 2                                    # fantasy points per member (the same number for every member)
@@ -1319,7 +1573,7 @@ def selfcheck_worker(item):
 
 # =============================================================================================
 WORKERS = dict(kernel=kernel_worker, struct=struct_worker, mean=mean_worker, likelihood=likelihood_worker, exact=exact_worker, svgp=svgp_worker,
-               modellist=modellist_worker, selfcheck=selfcheck_worker, objective=objective_worker)
+               modellist=modellist_worker, selfcheck=selfcheck_worker, objective=objective_worker, nan=nan_worker)
 
 # objectives: the cases every configuration is replayed on whatever the sample (batch ranks 1 and 2 with equal shapes, parameters broadcast over
 # the data and the data over the parameters), as (P, D1) / (P, D1, D2)
@@ -1360,7 +1614,10 @@ def run(ck):
                "(generic, = feature size, = size of a batch axis), times diag / lazy diagonal / full evaluation.  Model lists: every sequence of "
                "member kinds of length 1..3 (TLC), each on triples of member batch shapes, times every operation of the list.  Objectives: every "
                "constructible configuration (class of gpytorch.mlls x likelihood / noise model x priors x added loss x combine_terms; TLC) on triples "
-               "of the lattice, every element (and with combine_terms=False every term) compared in value with the replica")
+               "of the lattice, every element (and with combine_terms=False every term) compared in value with the replica.  Missing observations: every "
+               "pattern of missing entries (TLC: per batch shape of rank 0..2, built axis by axis; classes none / same / one element complete / "
+               "different) x who carries the batch (hyperparameters and inputs / hyperparameters only / inputs only) x NaN policy (mask, fill); "
+               "one evaluation = one element of the batched output compared with the non-batched replica on its slice with the dropped entries deleted")
     ck.assumptions = [
         "replica = a freshly constructed non-batched module of the same class holding slice ShUnb(b, P) of every parameter and buffer "
         "(a parameter of a sub-module built without batch shape is shared), applied to slices ShUnb(b, D1), ShUnb(b, D2) of the data",
@@ -1392,6 +1649,14 @@ def run(ck):
         "lengthscale of the batched model and of the replica (the replica's log prior is the prior of its slice of the parameters).  A term returned by "
         "combine_terms=False is compared after broadcasting it to the batch of the objective.  DeepApproximateMLL / DeepPredictiveLogLikelihood average "
         "over their leading axis (samples / quadrature sites, not replicas) and InducingPointKernelAddedLossTerm belongs to a structured kernel: not replayed" % NUM_DATA,
+        "missing observations (settings.observation_nan_policy; 'ignore' = the rest of the lattice, which has no missing entries): targets of batch "
+        "shape Y with %d points per element, NaN at the positions of the pattern.  Replayed: exact GP posterior mean (mask, fill) and "
+        "ExactMarginalLogLikelihood (mask; it rejects fill, batched or not), GaussianLikelihood / FixedNoiseGaussianLikelihood(learn_additional_noise) "
+        "expected_log_prob and log_marginal point by point, VariationalELBO and PredictiveLogLikelihood of an SVGP (data term - KL).  The replica is "
+        "evaluated WITHOUT a NaN policy on the slice with the entries deleted that Batch.tla's semantics drops from that element (fill: its own; mask: "
+        "the documented union over the whole batch).  Only the batch-independence clause is decided here: the objectives divide the sum over the data by "
+        "the number of points INCLUDING the missing ones (the reading the code satisfies; the replica's sum is divided by the same number), and the "
+        "posterior covariance under a NaN policy (known finding of C16: conditioned on all inputs) is not compared" % NOBS,
         "derivative kernels (RBFKernelGrad, ...), structured kernels (Grid*, InducingPoint), HammingIMQ and the deprecated last_dim_is_batch "
         "kernels are not claimed batch-broadcast capable and are not replayed",
     ]
@@ -1404,11 +1669,12 @@ def run(ck):
                       "replayed in both tiers: thorough on every triple (the variational configurations with priors / other likelihoods / separate terms on "
                       "the anchors and a seeded quarter), quick on %d + %d anchor cases (batch ranks 1 and 2, parameters broadcast over the data "
                       "and the data over the parameters) and a seeded sample (the plain ExactMarginalLogLikelihood / LeaveOneOutPseudoLikelihood on every "
-                      "(P, D1))" % (len(QUICK_FULL_KERNELS), len(STRUCT_QUICK_FULL), len(struct_catalogue()), len(OBJ_ANCHORS_EXACT), len(OBJ_ANCHORS_VAR)))
+                      "(P, D1)); missing observations: thorough replays all 708 (batch shape, placement, pattern) cases under fill and (rank 2: a seeded third of them) under mask, quick one pattern per (batch rank, "
+                      "placement, pattern class, varying axes) and policy plus a seeded 2%%" % (len(QUICK_FULL_KERNELS), len(STRUCT_QUICK_FULL), len(struct_catalogue()), len(OBJ_ANCHORS_EXACT), len(OBJ_ANCHORS_VAR)))
     import time
     timing = {}
     t0 = time.time()
-    cases, rejected, preds, configs, objectives = run_tlc(ck)
+    cases, rejected, preds, configs, objectives, nans = run_tlc(ck)
     timing["tlc"] = round(time.time() - t0, 1)
     ck.section("tlc", broadcastable_triples=len(cases), rejected_triples=len(rejected), elements=sum(len(c["reps"]) for c in cases))
     seed = ck.seed
@@ -1469,6 +1735,24 @@ def run(ck):
             cs_o = [c for c in cases if tri(c) in OBJ_ANCHORS_VAR or rnd.random() < frac]
         for i in range(0, len(cs_o), 6):
             items.append(dict(kind="objective", obj=o, seed=seeds[0], cases=cs_o[i:i + 6]))
+    # missing observations: every (batch shape, placement, pattern) of Batch.tla under both policies (thorough); quick: per (batch rank, placement,
+    # pattern class, axes along which the pattern varies) one pattern under each policy, plus a seeded 4% of the rest under a seeded policy
+    nan_sel, nan_groups = [], {}
+    rnd_nan = random.Random(seed * 7919 + 8)          # (its own stream: the samples of the other families do not move)
+    for nc in nans:
+        nan_groups.setdefault((len(nc["Y"]), nc["place"], nc["cls"], tuple(nc["vary"])), []).append(nc)
+    for gk in sorted(nan_groups):
+        grp = nan_groups[gk]
+        first = {pol: rnd_nan.randrange(len(grp)) for pol in NAN_POLICIES}
+        if thorough:         # every pattern under fill; under mask every pattern of the batches of rank 0 and 1 and a seeded third of those of rank 2
+            nan_sel += [(nc, pol) for j, nc in enumerate(grp) for pol in NAN_POLICIES if pol == "fill" or len(nc["Y"]) < 2 or first[pol] == j or rnd_nan.random() < 0.34]
+            continue
+        for j, nc in enumerate(grp):
+            for pol in NAN_POLICIES:
+                if first[pol] == j or rnd_nan.random() < 0.02:
+                    nan_sel.append((nc, pol))
+    for i in range(0, len(nan_sel), 3):
+        items.append(dict(kind="nan", seed=seeds[0], cases=nan_sel[i:i + 3]))
     # model lists: every configuration of member kinds of Batch.tla (thorough: each on several triples; quick: the triples of a 10% sample
     # take the configurations in turn, heterogeneous ones first)
     by_len = {k: [c for c in configs if len(c["kinds"]) == k] for k in (1, 2, 3)}
@@ -1513,8 +1797,20 @@ def run(ck):
             k, t = r.pop("cpu")
             cpu[k] = cpu.get(k, 0.0) + t
     ck.extra["replay_cpu_s_by_kind"] = {k: round(v, 1) for k, v in sorted(cpu.items())}
+    nan_seen = set()
     for r in results:
         cell = r.pop("cell", None)
+        if "nan" in r and not r.get("machinery"):
+            info = r.pop("nan")
+            d = counts.setdefault("missing-observations", dict(cells=0, element_comparisons=0, failing_cells=0, cells_fill=0, cells_mask=0,
+                                                               cells_where_variant_nan_shared_mask_differs=0))
+            d["cells"] += 1
+            d["element_comparisons"] += r.get("n", 1)
+            d["failing_cells"] += 0 if r["ok"] else 1
+            d["cells_" + info["pol"]] += 1
+            d["cells_where_variant_nan_shared_mask_differs"] += 1 if info["variant_differs"] else 0
+            nan_seen.add((r["key"][1], r["key"][2], info["pol"], info["cls"], info["rank"], info["place"]))
+            continue
         if r.get("machinery") or cell is None:
             continue
         kind = r["key"][0]
@@ -1599,7 +1895,15 @@ def run(ck):
             len(set(objs) - obj_cfg_seen), len(objs), sorted(set(objs) - obj_cfg_seen)[0]))
     if not counts.get("objective", {}).get("cells_where_variant_norm_numel_differs"):
         ck.vacuous("no replayed objective cell lies where Batch.tla tells the variant norm_numel from the code")
-    for need in ("kernel", "kernel-structure", "mean", "likelihood", "exact", "svgp", "modellist", "objective"):
+    mo = counts.get("missing-observations", {})
+    if not mo.get("cells_where_variant_nan_shared_mask_differs"):
+        ck.vacuous("no replayed missing-observation cell lies where Batch.tla tells the variant nan_shared_mask from the code")
+    for mod, mode in (("exact", "posterior-mean"), ("GaussianLikelihood", "expected_log_prob"), ("GaussianLikelihood", "log_marginal"), ("svgp", "elbo"), ("svgp", "pll")):
+        for cl in ("one_clean", "different"):
+            for rank in (1, 2):
+                if not any((mod, mode, "fill", cl, rank, pl) in nan_seen for pl in ("both", "params", "data")):
+                    ck.vacuous("missing observations: %s %s was not replayed under 'fill' on a batch of rank %d with a pattern of class %s" % (mod, mode, rank, cl))
+    for need in ("kernel", "kernel-structure", "mean", "likelihood", "exact", "svgp", "modellist", "objective", "missing-observations"):
         if not counts.get(need, {}).get("cells"):
             ck.vacuous("no %s cell was replayed" % need)
     if not counts.get("kernel-structure", {}).get("cells_where_variant_diag_own_batch_differs") and "call_diag" in REPAIRED:
@@ -1662,6 +1966,9 @@ def replay(rep):
         res = svgp_worker(dict(variant=name, P=case["P"], D2=case["D2"], seed=seed, cases=[case]))
     elif kind == "modellist":
         res = modellist_worker(dict(seed=seed, cases=[case], configs=[c["config"]]))
+    elif kind == "nan":
+        mod = name if name in NAN_MODULES else "likelihood"
+        res = [r for r in nan_worker(dict(seed=seed, cases=[(c["case"], c["pol"])], modules=[mod])) if r["key"][1] == name]
     elif kind == "objective":
         res = objective_worker(dict(obj=c["obj"], seed=seed, cases=[case]))
     else:
